@@ -60,6 +60,9 @@ func safeStep(e engine, ws []string) (res string) {
 }
 
 func panicClass(s string) string {
+	if strings.Contains(s, "cannod be reverted") {
+		return "revision"
+	}
 	s = strings.ReplaceAll(s, "\n", " ")
 	if len(s) > 120 {
 		s = s[:120]
